@@ -734,6 +734,10 @@ class IoContract(Generic[TermList_t]):
         (g2, used) = g2_t.elim_vars_by_relaxing(g1_t, intvars, simplify, tactics_order)
         tactics_used.append(used)
         allguarantees = g1 | g2
+        # each side was simplified in the context of the other one, so a guarantee stated by both sides
+        # would be dropped from both: keep the guarantees that need no elimination
+        allguarantees = allguarantees | (g1_t - g1_t.get_terms_with_vars(intvars))
+        allguarantees = allguarantees | (g2_t - g2_t.get_terms_with_vars(intvars))
         (allguarantees, used) = allguarantees.elim_vars_by_relaxing(assumptions, intvars, simplify, tactics_order)
         tactics_used.append(used)
 
